@@ -350,12 +350,51 @@ def gen_namejoin(rng, max_nodes=20):
 
 
 def gen_wide_types():
-    """every multi-operand type with 3, 4 and 5 operands, gated by an enable: o = and(en, g)"""
+    """every multi-operand type with 3, 4 and 5 operands: o = not(g), g = t(i0 .. ik)"""
     out = []
     for t in GATE2:
         for k in (3, 4, 5):
-            nodes = [[f"i{j}", "input", False, []] for j in range(k)] + [["en", "input", False, []]]
+            nodes = [[f"i{j}", "input", False, []] for j in range(k)]
             nodes.append(["g", t, False, [f"i{j}" for j in range(k)]])
-            nodes.append(["o", "and", True, ["en", "g"]])
+            nodes.append(["o", "not", True, ["g"]])
             out.append({"name": "top", "nodes": nodes, "bbs": []})
     return out
+
+
+# ---------------------------------------------------------------- constants (incl. `x`) inside the cones, with fan-out
+def gen_xconst(rng, max_nodes=16):
+    """random fan-in<=2 DAG whose leaves are mostly constants of type x / 0 / 1 (a constant may feed several gates)"""
+    import lib
+    for _ in range(50):
+        d = lib.rand_dag(rng, rng.randint(1, 4), rng.randint(2, 10), max_fanin=2, p_const=0.95, consts=("x", "x", "0", "1"),
+                         p_out=rng.choice([0.0, 0.2, 0.4]))
+        if len(d["nodes"]) <= max_nodes and any(n[1] in CONST and any(n[0] in m[3] for m in d["nodes"]) for n in d["nodes"]):
+            return d
+    return d
+
+
+def xconst_demo():
+    """a, b, d inputs; g1 = and(a, tie_x); g2 = or(g1, b); out = xor(g2, d)   (what the Verilog reader makes of 1'bx)"""
+    return {"name": "tiex", "bbs": [], "nodes": [["a", "input", False, []], ["b", "input", False, []], ["d", "input", False, []],
+            ["tie_x", "x", False, []], ["g1", "and", False, ["a", "tie_x"]], ["g2", "or", False, ["b", "g1"]],
+            ["out", "xor", True, ["d", "g2"]]]}
+
+
+# ---------------------------------------------------------------- names of the shape limit_fanin itself produces
+def gen_limitname(rng):
+    """a gate g with 3..5 operands next to nodes already called g_limit_fanin_<i> (as after an earlier limit_fanin(c, 3))"""
+    k = rng.randint(3, 5)
+    t = rng.choice(GATE2)
+    nodes = [[f"i{j}", "input", False, []] for j in range(k)]
+    style = rng.choice(["input", "gate", "both"])
+    if style in ("input", "both"):
+        nodes.append([f"g_limit_fanin_{rng.choice([0, 1])}", "input", False, []])
+    if style in ("gate", "both"):
+        nodes.append(["g_limit_fanin_0" if style == "gate" else "g_limit_fanin_2", rng.choice(GATE2), False, ["i0", "i1"]])
+    extra = [n[0] for n in nodes if n[0].startswith("g_limit")]
+    nodes.append(["g", t, False, [f"i{j}" for j in range(k)]])
+    nodes.append(["o", rng.choice(GATE2), True, ["g", rng.choice(extra)]])
+    for e in extra:
+        if not any(e in n[3] for n in nodes):
+            nodes.append([f"u_{e}", "buf", True, [e]])
+    return {"name": "top", "nodes": nodes, "bbs": []}
